@@ -78,7 +78,11 @@ func genC17(r *kit.Rand, tier kit.Tier) C17Case {
 				for _, op := range rc.Ops {
 					if r.Chance(1, 3) && !seen[op.Addr/block*block] {
 						seen[op.Addr/block*block] = true
-						addrs = append(addrs, op.Addr/block*block)
+						if r.Bool() {
+							addrs = append(addrs, op.Addr/block*block)
+						} else {
+							addrs = append(addrs, op.Addr) // any address inside the line names the line
+						}
 					}
 				}
 			}
